@@ -173,3 +173,20 @@ def make_folder(idx: Index, relpath: str, **kw) -> Folder:
     fo = Folder(resolver=module_resolver(idx, relpath), resolver_factory=lambda rel: module_resolver(idx, rel), **kw)
     fo.env["np.pi"] = sp.pi
     return fo
+
+
+def fold_module_global(idx: Index, relpath: str, name: str):
+    """value of a module-level name that is *built* by top-level statements (an empty container filled by loops and subscript stores): every top-level
+    Assign / AugAssign / For / If statement that mentions the name is folded in order; other names resolve as usual"""
+    import ast as _ast
+    from ..consteval import Folder as _Folder
+    mod = idx.module_by_relpath(relpath)
+    fo = _Folder(resolver=module_resolver(idx, relpath), resolver_factory=lambda rel: module_resolver(idx, rel))
+    seen = False
+    for st in mod.tree.body:
+        if isinstance(st, (_ast.Assign, _ast.AugAssign, _ast.AnnAssign, _ast.For, _ast.If)) and any(isinstance(x, _ast.Name) and x.id == name for x in _ast.walk(st)):
+            fo.stmt(st)
+            seen = True
+    if not seen or name not in fo.env:
+        raise AnalysisError(f"{relpath}: module-level name {name} is not built by top-level statements")
+    return fo.env[name]
